@@ -138,6 +138,8 @@ type Outcome struct {
 	Reads      int    `json:"reads"`
 	Writes     int    `json:"writes"`
 	Panic      string `json:"panic,omitempty"`
+	// Hang: run had not returned when the wall-clock watchdog expired.
+	Hang bool `json:"hang,omitempty"`
 	Closes     []int  `json:"closes,omitempty"`
 }
 
